@@ -312,6 +312,12 @@ def _tiling(ctx, p, evs, sel, claim_call, h):
     b = range_bounds(outer["iter"]) if outer["iter"] else None
     ok = b is not None and is_const(b[0]) and is_const(b[1]) and \
         list(range(b[0][1], b[1][1])) == [1, 2, 3]
+    if not ok and any(isinstance(e.get("site"), tuple) and e["site"][2] >= 1000
+                      for e in evs[i0:i1]):
+        # the size loop runs over a constant tuple and was unrolled: the
+        # tiling rule reads loops, so it has no verdict on this shape
+        raise AnalysisError("R04.tiling: the allocator's size loop iterates a constant "
+                            "tuple (unrolled); this shape is not modelled")
     ctx.ob("R04.tiling", "sizes are 1,2,3 ascending", ok, outer,
            "" if ok else "size loop iterates %s" % show(outer["iter"])[:60])
     # the choice set of each size: candidate ranges and formatting
